@@ -223,9 +223,9 @@ class World(object):
                     else:
                         node = factory(op[3])(check_grammar=False)
                 elif op[1] == 't':
-                    node = Text(u'' if op[3] == u'' else u'txt%d' % op[2])        # op[3] == '' : an empty text node
+                    node = Text(u'' if op[3] == u'' else u'txt')        # op[3] == '': empty; all other text nodes have EQUAL content
                 else:
-                    node = CDATASection(u'' if op[3] == u'' else u'cd%d' % op[2])
+                    node = CDATASection(u'' if op[3] == u'' else u'cd')
                 self.reg(op[2], node)
             elif k == 'append':
                 N[op[1]].appendChild(N[op[2]])
